@@ -183,6 +183,12 @@ theorem CInv_step_readerStep (d : DictFn) (s s' : CN) (h : CInv d s) (hs : s.ste
       cases hs; exact CInv_terminate d s _ h (by simp [hr])
     | need =>
       simp only [CN.step, hr, hn] at hs
+      cases hre : s.rEnd with
+      | some e =>
+        simp only [hre] at hs
+        cases hs; exact CInv_terminate d s _ h (by simp [hr])
+      | none =>
+      simp only [hre] at hs
       by_cases hp : s.pending = true
       · simp only [hp, if_true] at hs
         cases hs
@@ -278,7 +284,7 @@ theorem CInv_quiet (d : DictFn) (s : CN) (h : CInv d s) (hq : s.quiescent d = tr
     | inHandler => exact absurd hr hh
     | idle =>
       simp only [CN.step, hr] at hq1
-      split at hq1 <;> (try split at hq1) <;> simp at hq1
+      split at hq1 <;> (try split at hq1) <;> (try split at hq1) <;> simp at hq1
     | blocked src =>
       exfalso
       have hb := h.blk src hr
